@@ -210,18 +210,18 @@ func (run *checkRun) report(obres []*ObResult, undecided []string, wall float64)
 	}
 	level := "proof"
 	cov := map[string]interface{}{
-		"obligations":            total,
-		"discharged":             discharged,
-		"checker_cmd":            fmt.Sprintf("/verif/bin/akverif check %s --tier %s", id, run.tier),
-		"trusted_base":           tb,
+		"obligations":              total,
+		"discharged":               discharged,
+		"checker_cmd":              fmt.Sprintf("/verif/bin/akverif check %s --tier %s", id, run.tier),
+		"trusted_base":             tb,
 		"functions_under_contract": fnNames,
-		"vacuity_covers":         covers,
-		"by_solver":              bySolver,
-		"solver_time_s":          solverSecs,
-		"samples":                samples,
-		"obligation_list":        obList,
-		"undecided":              undecided,
-		"bounded":                boundedNotes,
+		"vacuity_covers":           covers,
+		"by_solver":                bySolver,
+		"solver_time_s":            solverSecs,
+		"samples":                  samples,
+		"obligation_list":          obList,
+		"undecided":                undecided,
+		"bounded":                  boundedNotes,
 	}
 	if total == 0 {
 		level = "other"
@@ -320,6 +320,9 @@ func (run *checkRun) writeReplay(outDir string, o *ObResult, verdict string) str
 		} else if len(rf.Model) < 200 {
 			rf.Model[k] = o.model[k]
 		}
+	}
+	for k, v := range o.inputs {
+		rf.Inputs[k] = v
 	}
 	path := filepath.Join(outDir, base+".json")
 	data, _ := json.MarshalIndent(rf, "", " ")
